@@ -339,7 +339,7 @@ func TestGrid(t *testing.T) {
 
 func TestRandom(t *testing.T) {
 	ev.Rule(rule)
-	ev.Rapid(t, "c11-random", 1500, 320000, func(rt *rapid.T) {
+	ev.Rapid(t, "c11-random", 10000, 320000, func(rt *rapid.T) {
 		c := &Case{}
 		switch rapid.IntRange(0, 3).Draw(rt, "nkind") {
 		case 0:
@@ -417,7 +417,7 @@ var checkSampleCI = ev.Register("sampleci", func(c *SCase) ev.Outcome {
 
 func TestSampleCI(t *testing.T) {
 	ev.Rule(rule)
-	ev.Rapid(t, "c11-sampleci", 1000, 80000, func(rt *rapid.T) {
+	ev.Rapid(t, "c11-sampleci", 5000, 80000, func(rt *rapid.T) {
 		n := rapid.IntRange(1, 60).Draw(rt, "n")
 		levels := rapid.IntRange(1, n+2).Draw(rt, "levels")
 		vals := gen.Increasing(rt, levels, rapid.IntRange(0, 2).Draw(rt, "style"), "vals")
